@@ -431,15 +431,15 @@ theorem validateKeys_acc_found (root : CTy) (bl : List String) : ∀ (ks p : Lis
               have := ih (p ++ [k]) (some ti) false t io (by simp) h
               simpa [List.append_assoc] using this
 
-def identsOf (names : List Bytes) : List PathPart := names.map (fun n => PathPart.ident n false [])
+def keyPartsOf (names : List Bytes) : List PathPart := names.map (fun n => PathPart.ident n false [])
 
 theorem vParts_idents (root : CTy) (bl : List String) : ∀ (names : List Bytes) (strs ks0 : List String),
     names.map bytesToString = strs.map some →
-    vParts root bl (.keys ks0) (identsOf names) = vParts root bl (.keys (ks0 ++ strs)) [] := by
+    vParts root bl (.keys ks0) (keyPartsOf names) = vParts root bl (.keys (ks0 ++ strs)) [] := by
   intro names
   induction names with
   | nil => intro strs ks0 h; cases strs with
-    | nil => simp [identsOf]
+    | nil => simp [keyPartsOf]
     | cons s ss => simp at h
   | cons n ns ih =>
     intro strs ks0 h
@@ -447,7 +447,7 @@ theorem vParts_idents (root : CTy) (bl : List String) : ∀ (names : List Bytes)
     | nil => simp at h
     | cons s ss =>
       simp only [List.map_cons, List.cons.injEq] at h
-      have e : identsOf (n :: ns) = .ident n false [] :: identsOf ns := by simp [identsOf]
+      have e : keyPartsOf (n :: ns) = .ident n false [] :: keyPartsOf ns := by simp [keyPartsOf]
       rw [e]
       simp only [vParts, h.1]
       rw [ih ss (ks0 ++ [s]) h.2]
@@ -458,7 +458,7 @@ theorem vParts_idents (root : CTy) (bl : List String) : ∀ (names : List Bytes)
 /-- **C13 / C15**: a `$` path of keys is validated by the operation model exactly as `validateKeys` validates the keys -/
 theorem vTop_key_path (root : CTy) (bl : List String) (i f m : Bool) (us : Bytes) (names : List Bytes) (strs : List String)
     (hne : strs ≠ []) (h : names.map bytesToString = strs.map some) :
-    vTop root bl (.path (.mk i true f m (identsOf names) us)) =
+    vTop root bl (.path (.mk i true f m (keyPartsOf names) us)) =
       match validateKeys root bl strs [] none true with
       | .acc t io => some ([], (t, io))
       | .rej c => some ([c], ("", ""))
